@@ -46,7 +46,7 @@ func mkConf9(v hv.Val) cluster_table_conf.SubClusterBackend {
 		p := hv.AsList(e)
 		id, w := int(hv.AsInt(p[0])), int(hv.AsInt(p[1]))
 		name := fmt.Sprintf("b%d", id)
-		addr := "10.0.0.1"
+		addr := []string{"10.0.0.1", "fd00::1", "h.example"}[id%3]
 		port := 1000 + id
 		conf = append(conf, &cluster_table_conf.BackendConf{Name: &name, Addr: &addr, Port: &port, Weight: &w})
 	}
@@ -138,12 +138,20 @@ func impl(in hv.Val) hv.Val {
 	st := cluster_conf.ClientIpOnly
 	hdr := ""
 	sticky := modeI == 2
-	mode := cluster_conf.BalanceModeWrr
-	if modeI == 1 {
-		mode = cluster_conf.BalanceModeWlc
+	spell := (rmax + cross + len(gc)) % 3
+	if spell < 0 {
+		spell = -spell
 	}
-	bal.SetGslbBasic(cluster_conf.GslbBasicConf{CrossRetry: &cross, RetryMax: &rmax,
-		HashConf: &cluster_conf.HashConf{HashStrategy: &st, HashHeader: &hdr, SessionSticky: &sticky}, BalanceMode: &mode})
+	mode := []string{"WRR", "wrr", "Wrr"}[spell]
+	if modeI == 1 {
+		mode = []string{"WLC", "wlc", "Wlc"}[spell]
+	}
+	gb := cluster_conf.GslbBasicConf{CrossRetry: &cross, RetryMax: &rmax,
+		HashConf: &cluster_conf.HashConf{HashStrategy: &st, HashHeader: &hdr, SessionSticky: &sticky}, BalanceMode: &mode}
+	if err := cluster_conf.GslbBasicConfCheck(&gb); err != nil {
+		return hv.Err(8)
+	}
+	bal.SetGslbBasic(gb)
 	find := func(sub string, id int) *backend.BfeBackend {
 		for _, b := range bal_gslb.VerifC03Backends(bal)[sub] {
 			if b.Port-1000 == id {
@@ -579,5 +587,5 @@ func gen(r *hv.Rng, i int, tier string) (string, hv.Val) {
 }
 
 func main() {
-	hv.Main(&hv.Spec{Prop: "C03", Gen: gen, Impl: impl, NQuick: 10000, NThorough: 400000})
+	hv.Main(&hv.Spec{Prop: "C03", Gen: gen, Impl: impl, NQuick: 7000, NThorough: 400000})
 }
